@@ -43,7 +43,7 @@ def gates(c, tier):
 
 
 def body_for(r, kind):
-    res = (r.choice([0, 0, 14, 49, 4, 10]), "", r.choice(["", "d"]), r.choice([None, None, ("ldap://r/",)]))
+    res = (r.choice([0, 0, 14, 49, 4, 10] + gv.RESULT_CODES + gv.UNKNOWN_CODES[:12]), "", r.choice(["", "d"]), r.choice([None, None, ("ldap://r/",)]))
     return {
         "BindResponse": (res, r.choice([None, b"", b"tok"])),
         "SearchResultEntry": ("cn=e", ((("cn"), (b"v",)),)),
